@@ -16,7 +16,12 @@ pub struct Rng {
 /// by Knuth and H. W. Lewis.
 impl Rng {
     pub fn new(seed: u64) -> Self {
-        Rng { seed }
+        // The generator's state always lives in `0..MODULUS`; reduce arbitrary
+        // 64-bit seeds into that range so the first step can't overflow and
+        // `latest_random()` stays in `[0, 1)`.
+        Rng {
+            seed: seed % MODULUS,
+        }
     }
 
     pub fn random(&mut self) -> f64 {
